@@ -1165,6 +1165,7 @@ class TermCanvas(Canvas):
             elif attr == 0:
                 # clear all attributes
                 fg = bg = None
+                colors = 1
                 attributes.clear()
 
             idx += 1
@@ -1200,9 +1201,6 @@ class TermCanvas(Canvas):
         """
         Set graphics rendition.
         """
-        if attrs[-1] == 0:
-            self.attrspec = None
-
         attributes = set()
         if self.attrspec is None:
             fg = bg = None
@@ -1212,15 +1210,14 @@ class TermCanvas(Canvas):
                 fg = None
             else:
                 fg = self.attrspec.foreground_number
-                if fg >= 8 and self.attrspec.colors == 16:
+                if fg >= 8 and self.attrspec.colors == 16 and self.attrspec.bold:
+                    # undo the bold -> bright mapping of sgi_to_attrspec (it is applied again there)
                     fg -= 8
 
             if "default" in self.attrspec.background:
                 bg = None
             else:
                 bg = self.attrspec.background_number
-                if bg >= 8 and self.attrspec.colors == 16:
-                    bg -= 8
 
             for attr in ("bold", "underline", "blink", "standout"):
                 if not getattr(self.attrspec, attr):
